@@ -14,6 +14,7 @@ Decides the clauses visible in code shape (pint's own parsing and arithmetic are
 from __future__ import annotations
 
 import ast
+import os
 from fractions import Fraction
 from typing import Dict, List, Optional, Set, Tuple
 
@@ -497,7 +498,7 @@ def check_u9(ctx) -> None:
             continue
         compared = any(isinstance(c, ast.Compare) and {'currSuff', 'prefSuff'} <= {x.id for x in ast.walk(c) if isinstance(x, ast.Name)}
                        for c in ast.walk(f.node))
-        if fname != 'ConvertUnits' and not compared:
+        if fname == '_parameter_with_currency_units_converted_back_to_preferred_units' and not compared:
             ctx.info(f'U9 {f.module.rel}:{strips[0].lineno} {fname}/suffix-compared: suffixes stripped and never compared; this legacy arm is only '
                      f'reached when pint cannot parse the unit and the currency codes agree, for which no input could be constructed')
             continue
@@ -673,7 +674,57 @@ def check_u14(ctx, rule: str = 'U14', only_classes=None) -> int:
     return n
 
 
+# ------------------------------------------------------------------------------------------------- U15
+CURRENCY_CODES_WITHOUT_RATES = ('EUR', 'MXN')     # conversion between currencies is disabled in the program itself (_DISABLE_FOREX_API,
+#                                                   upstream issue 236) and refused with a message that says so: informational
+
+
+def check_u15(ctx) -> None:
+    """Every unit text of a catalogue that a declaration uses (and that offers an alternative, i.e. has >= 2 members) is a
+    unit expression over identifiers defined in pint's definition files + GEOPHIRES3_newunits.txt (read as data)."""
+    import glob
+    from gxstat.pintdefs import load
+    repo = ctx.repo
+    reg = get_registry(repo)
+    cands = sorted(glob.glob('/venv/lib/python3*/site-packages/pint/default_en.txt'))
+    ctx.require(cands, 'pint definition file default_en.txt not found in the repository environment (/venv)')
+    own = os.path.join(repo.root, 'src', 'geophires_x', 'GEOPHIRES3_newunits.txt')
+    ctx.require(os.path.exists(own), 'src/geophires_x/GEOPHIRES3_newunits.txt not found')
+    defs = load([cands[0], own])
+    ctx.floor('U15', len(defs.units), 500, 'unit names read from the pint definition files')
+    ctx.analysed['pint_definition_files'] = [os.path.basename(f) for f in defs.files]
+    ctx.analysed['pint_unit_names'] = len(defs.units)
+    used: Dict[str, List] = {}
+    for d in reg.decls:
+        pu = d.get('PreferredUnits') or d.get('CurrentUnits')
+        if isinstance(pu, EnumRef):
+            used.setdefault(pu.enum, []).append(d)
+    n = 0
+    for enum in sorted(used):
+        members = reg.enums.enums.get(enum, {})
+        texts = {m: v for m, v in members.items() if isinstance(v, str)}
+        if len(set(texts.values())) < 2:
+            continue
+        d0 = used[enum][0]
+        for m, v in sorted(texts.items()):
+            n += 1
+            unk = defs.unknown_identifiers('percent' if v == '%' else v)
+            key = f'{enum}.{m}/defined-for-pint'
+            if not unk:
+                ctx.ok('U15', key, d0.where, f'`{v}` resolves')
+                continue
+            msg = (f'catalogue unit `{v}` of {enum} (used by {len(used[enum])} declaration(s), e.g. {d0.owner}.{d0.attr}) uses '
+                   f'{unk}, which neither pint nor GEOPHIRES3_newunits.txt defines: a value written in this listed unit cannot be '
+                   f'converted (the input is refused; a `Units:` request falls into the legacy branch)')
+            if any(c in v for c in CURRENCY_CODES_WITHOUT_RATES):
+                ctx.info(f'U15 {d0.where} {key}: {msg} [currency conversion is disabled by the program and refused with that explanation]')
+            else:
+                ctx.bad('U15', key, d0.where, msg)
+    ctx.floor('U15', n, 90, 'catalogue unit texts')
+
+
 def run(ctx) -> None:
+    ctx.rule('U15', 'every unit text of a used catalogue is defined in pint\'s definition files or GEOPHIRES3_newunits.txt')
     ctx.rule('U13', 'pint lookups inside LookupUnits cannot raise (the function returns nothing for unknown text)')
     ctx.rule('U14', 'inputs of a unit type whose label goes stale in ConvertUnits are read through .value, not .quantity()')
     ctx.rule('U12', 'outside the converters a CurrentUnits store is paired with a change of the same object\'s value')
@@ -705,6 +756,7 @@ def run(ctx) -> None:
     check_u11(ctx)
     check_u12(ctx)
     check_u13(ctx)
+    check_u15(ctx)
     k14 = check_u14(ctx)
     ctx.floor('U14', k14, 20, '.quantity() reads of input parameters')
     ctx.undecided('what pint parses or computes for a given unit text', 'numerical equality of a run re-expressed in other units (paired-run property)',
